@@ -228,7 +228,9 @@ register(Assumed("pymarkdown/general/parser_logger.py::ParserLogger.sync_on_next
 register(Assumed(PMK + "initialize", raises=[Raises("BadPluginError"), Raises("ValueError")], modifies=["$plugin_registry", "number_of_scan_failures"],
                  ensures=["self.number_of_scan_failures == 0"],
                  why="plugin discovery and registration (C17 puts the enable/disable precedence under contract); zeroes the failure counter first (line 93)"))
-register(Assumed(PMK + "apply_configuration", raises=[Raises("Exception")], modifies=["$plugin_registry"], why="per-rule configuration (C17)"))
+PM_APPLY_OPAQUE = Assumed(PMK + "apply_configuration[as seen by the exit-code chain]", raises=[Raises("Exception")], modifies=["$plugin_registry"],
+                          why="per-rule configuration: for the exit-code chain only 'may raise any Exception' matters; what it does is under "
+                              "contract in contracts/configuration.py (C14/C17)")
 register(Assumed(EMK + "initialize", raises=[Raises("Exception")], modifies=["$extension_registry"], why="extension discovery"))
 register(Assumed(EMK + "apply_configuration", raises=[Raises("Exception")], modifies=["$extension_registry"], why="extension configuration (C20)"))
 register(Assumed(PMK + "handle_argparse_subparser", returns="ApplicationResult", pure=True, ensures=["is_category(result)"],
@@ -270,6 +272,7 @@ for name, extra in (("__initialize_plugin_manager", []), ("__apply_configuration
         modifies={"__initialize_extensions": ["$extension_registry"], "__apply_configuration_to_plugins": ["$plugin_registry"]}.get(
             name, ["$plugin_registry", "number_of_scan_failures"]),
         ensures=(["self.__plugins.number_of_scan_failures == 0"] if name in ("__initialize_plugin_manager", "__initialize_plugins") else []),
+        calls=({"self.__plugins.apply_configuration": PM_APPLY_OPAQUE} if name == "__apply_configuration_to_plugins" else {}),
     ))
 
 register(Contract(
